@@ -890,6 +890,15 @@ func runC38(r *simrt.Run) {
 		cause := ""
 		if prov.ok && !c38SameStrings(prov.exts, cons.exts) {
 			cause = ":provider-extensions-differ-from-consumer-choice"
+			if len(prov.exts) > len(cons.exts) {
+				cause = ":provider-added-extensions"
+			}
+			for _, n := range strings.Split(cons.api, chainlib.SEP) {
+				if n == "eth_call" {
+					cause += ":eth_call" // ParseMsg has a special case for this method
+					break
+				}
+			}
 		} else if provOrder != consOrder || consOrder == simrt.MapOrderShuffled {
 			// would the provider agree if its maps were iterated in the consumer's order?
 			again := c38Parse(r, t, "provider", t.prov, recv.ApiUrl, recv.Data, recv.ConnectionType, recv.GetMetadata(), pext, consOrder, seedA+uint64(i))
